@@ -63,7 +63,8 @@ def toV3SchemaTable : List (String × String) :=
    ("required", "required"), ("minProperties", "minProperties"), ("maxProperties", "maxProperties"), ("allOf", "<make>"),
    ("properties", "<make>"), ("additionalProperties", "additionalProperties")]
 
-/-- pinned: FromV3SchemaRef `&openapi2.Schema{…}` — no `discriminator` row (finding #21) -/
+/-- pinned: FromV3SchemaRef `&openapi2.Schema{…}` (the discriminator is copied by a statement after the
+    literal, in both directions: `toV3SchemaAssigned` / `fromV3SchemaAssigned` below) -/
 def fromV3SchemaTable : List (String × String) :=
   [("type", "type"), ("title", "title"), ("format", "format"), ("description", "description"),
    ("enum", "enum"), ("default", "default"), ("example", "example"), ("externalDocs", "externalDocs"),
@@ -124,7 +125,32 @@ def fromV3SecTable : List (String × String) :=
    ("authorizationCode.tokenUrl", "tokenUrl"), ("password.flow", "=password"), ("password.tokenUrl", "tokenUrl"), ("clientCredentials.flow", "=application"),
    ("clientCredentials.tokenUrl", "tokenUrl")]
 
+/-- what an operation object says beyond its id, parameters and responses (opaque, copy-only) -/
+def opMetaFields : List String := ["summary", "description", "deprecated", "tags"]
+
+/-- pinned: ToV3Operation `&openapi3.Operation{…}` -/
+def toV3OpTable : List (String × String) :=
+  [("operationId", "operationId"), ("summary", "summary"), ("description", "description"), ("deprecated", "deprecated"),
+   ("tags", "tags")]
+
+/-- pinned: FromV3Operation `&openapi2.Operation{…}` -/
+def fromV3OpTable : List (String × String) :=
+  [("operationId", "operationId"), ("summary", "summary"), ("description", "description"), ("deprecated", "deprecated"),
+   ("tags", "tags")]
+
+/-- pinned: the fields of the operation ToV3Operation / FromV3Operation set by statements after the literal -/
+def toV3OpAssigned : List String := ["security", "parameters", "requestBody", "responses"]
+def fromV3OpAssigned : List String := ["security", "parameters", "consumes", "responses"]
+
 /-! ## §2 references -/
+
+/-- pinned: `var ref2To3` — the prefixes ToV3Ref rewrites (and FromV3Ref rewrites back) -/
+def ref2To3 : List (String × String) :=
+  [("#/definitions/", "#/components/schemas/"), ("#/responses/", "#/components/responses/"),
+   ("#/parameters/", "#/components/parameters/")]
+
+/-- pinned: `var attemptedBodyParameterNames` — the names FromV3Operation tries for the body parameter -/
+def bodyParamNames : List String := ["body", "requestBody"]
 
 /-- the prefix of a `$ref`; `other` carries everything the converter leaves alone -/
 inductive RK where
@@ -187,11 +213,29 @@ def toV3Hd {V : Type} (h : Hd V) : Hd V :=
   { ty := (fileToBinary h.ty h.fmt).1, fmt := (fileToBinary h.ty h.fmt).2,
     nullable := h.xnull, xnull := false, disc := h.disc, req := h.req, sc := conv toV3SchemaTable h.sc }
 
-/-- FromV3SchemaRef, scalar part (non-binary branch): field copies by the table — `Discriminator` is not
-    copied; `PermitsNull` ↦ `x-nullable: true` -/
+/-- FromV3SchemaRef, scalar part (non-binary branch): field copies by the table; the discriminator object's
+    `propertyName` ↦ the v2 string (e0e4b64); `PermitsNull` ↦ `x-nullable: true` -/
 def fromV3Hd {V : Type} (h : Hd V) : Hd V :=
-  { ty := h.ty, fmt := h.fmt, nullable := false, xnull := h.nullable || h.xnull, disc := none,
+  { ty := h.ty, fmt := h.fmt, nullable := false, xnull := h.nullable || h.xnull, disc := h.disc,
     req := h.req, sc := conv fromV3SchemaTable h.sc }
+
+/-- pinned: the typed fields ToV3SchemaRef / FromV3SchemaRef set by statements after the composite literal
+    (JSON keys of the destination fields, in source order) -/
+def toV3SchemaAssigned : List String := ["discriminator", "items", "format", "type", "properties", "allOf", "nullable"]
+def fromV3SchemaAssigned : List String := ["discriminator", "items", "properties", "allOf"]
+
+mutual
+/-- convertRefsInV2SchemaRef (dfc5235): the additionalProperties schema of a v3 schema on the way back — its own
+    `$ref` is rewritten to the v2 form and the conversion stops there (the resolved value of a reference is
+    not entered); otherwise the chain of nested additionalProperties is followed. Nothing else is touched
+    (`nullable` stays, items / properties / allOf are copied as they are). -/
+def addlFromV3 {V : Type} : Sch V → Sch V
+  | .ref k n => .ref (fromV3RK k) n
+  | .node h kids => .node h (addlBackKids kids)
+def addlBackKids {V : Type} : List (Slot × Sch V) → List (Slot × Sch V)
+  | [] => []
+  | (sl, c) :: rest => (sl, if sl = Slot.addl then addlFromV3 c else c) :: addlBackKids rest
+end
 
 mutual
 /-- convertRefsInV3SchemaRef: the additionalProperties schema of a v2 schema is parsed as an
@@ -215,13 +259,14 @@ def toV3Kids {V : Type} : List (Slot × Sch V) → List (Slot × Sch V)
 end
 
 mutual
-/-- FromV3SchemaRef (schemas that are not string/binary): `AdditionalProperties` is copied as it is -/
+/-- FromV3SchemaRef (schemas that are not string/binary): `AdditionalProperties` goes through
+    fromV3AdditionalProperties -/
 def fromV3S {V : Type} : Sch V → Sch V
   | .ref k n => .ref (fromV3RK k) n
   | .node h kids => .node (fromV3Hd h) (fromV3Kids kids)
 def fromV3Kids {V : Type} : List (Slot × Sch V) → List (Slot × Sch V)
   | [] => []
-  | (sl, c) :: rest => (sl, if sl = Slot.addl then c else fromV3S c) :: fromV3Kids rest
+  | (sl, c) :: rest => (sl, if sl = Slot.addl then addlFromV3 c else fromV3S c) :: fromV3Kids rest
 end
 
 /-- FromV3SchemaRef returns no schema (but a form-data *parameter*) for a string/binary schema and for a
@@ -241,7 +286,7 @@ def fromV3SO {V : Type} (bin : List String) : Sch V → Option (Sch V)
 def fromV3KidsO {V : Type} (bin : List String) : List (Slot × Sch V) → List (Slot × Sch V)
   | [] => []
   | (sl, c) :: rest =>
-    if sl = Slot.addl then (sl, c) :: fromV3KidsO bin rest
+    if sl = Slot.addl then (sl, addlFromV3 c) :: fromV3KidsO bin rest
     else consO sl (fromV3SO bin c) (fromV3KidsO bin rest)
 end
 
@@ -345,37 +390,6 @@ def addlImpure {V : Type} : Sch V → Bool
 def addlImpureKids {V : Type} : List (Slot × Sch V) → Bool
   | [] => false
   | (sl, c) :: rest => (if sl = Slot.addl then !addlPure c else addlImpure c) || addlImpureKids rest
-end
-
-mutual
-/-- exclusion (finding #21a): a discriminator somewhere outside additionalProperties sub-schemas -/
-def hasDisc {V : Type} : Sch V → Bool
-  | .ref _ _ => false
-  | .node h kids => h.disc.isSome || hasDiscKids kids
-def hasDiscKids {V : Type} : List (Slot × Sch V) → Bool
-  | [] => false
-  | (sl, c) :: rest => (if sl = Slot.addl then false else hasDisc c) || hasDiscKids rest
-end
-
-mutual
-/-- a reference on the additionalProperties chain of this (additionalProperties) schema -/
-def chainRef {V : Type} : Sch V → Bool
-  | .ref _ _ => true
-  | .node _ kids => chainRefKids kids
-def chainRefKids {V : Type} : List (Slot × Sch V) → Bool
-  | [] => false
-  | (sl, c) :: rest => (if sl = Slot.addl then chainRef c else false) || chainRefKids rest
-end
-
-mutual
-/-- exclusion (finding #21b): an additionalProperties sub-schema with a reference on its chain — the way back
-    copies it unconverted -/
-def addlRef {V : Type} : Sch V → Bool
-  | .ref _ _ => false
-  | .node _ kids => addlRefKids kids
-def addlRefKids {V : Type} : List (Slot × Sch V) → Bool
-  | [] => false
-  | (sl, c) :: rest => (if sl = Slot.addl then chainRef c else addlRef c) || addlRefKids rest
 end
 
 mutual
@@ -744,6 +758,8 @@ structure Op2 (V : Type) where
   produces : List String
   params : List (PRef2 V)
   responses : List (String × RRef2 V)
+  info : Rec V := []              -- summary, description, deprecated, tags (opaque)
+  security : Option V := none     -- the operation's own security requirements (`security: []` is `some`)
 
 structure Path2 (V : Type) where
   path : String
@@ -759,6 +775,7 @@ structure Doc2 (V : Type) where
   defs : List (String × Sch V)
   secs : List (String × Sec2)
   paths : List (Path2 V)
+  security : Option V := none              -- document-level security requirements (non-empty list)
 
 structure Op3 (V : Type) where
   method : String
@@ -766,6 +783,8 @@ structure Op3 (V : Type) where
   params : List (PRef3 V)
   body : Option (BRef3 V)
   responses : List (String × RRef3 V)
+  info : Rec V := []
+  security : Option V := none
 
 structure Path3 (V : Type) where
   path : String
@@ -785,6 +804,7 @@ structure Doc3 (V : Type) where
   cresponses : List (String × RRef3 V)
   secs : List (String × Sec3)
   paths : List (Path3 V)
+  security : Option V := none
 
 /-- outcome of converting one v2 parameter (ToV3Parameter) -/
 inductive P3 (V : Type) where
@@ -880,7 +900,8 @@ def toV3Op {V : Type} (env : Env3 V) (docConsumes : List String) (op : Op2 V) : 
           body := match bodies with
             | b :: _ => some b
             | [] => if forms.isEmpty then none else some (.val (formBody env consumes (formMap forms))),
-          responses := op.responses.map (fun (k, r) => (k, toV3Resp op.produces r)) }
+          responses := op.responses.map (fun (k, r) => (k, toV3Resp op.produces r)),
+          info := conv toV3OpTable op.info, security := op.security }
 
 def mapRes {α β : Type} (f : α → Res β) : List α → Res (List β)
   | [] => .ok []
@@ -949,19 +970,27 @@ def toV3Raw {V : Type} (d : Doc2 V) : Res (Doc3 V) :=
       .ok { servers := toV3Servers d.loc, cparams := cps, cbodies := cbs,
             cschemas := mergeSchemas cfs d.defs,
             cresponses := d.responses.map (fun (k, r) => (k, toV3Resp d.produces r)),
-            secs := secs, paths := paths }
+            secs := secs, paths := paths, security := d.security }
+
+/-- schema-position references of a parameter / request body / response / operation / path item -/
+def prRefs3 {V : Type} : PRef3 V → List (RK × String)
+  | .ref _ _ => []
+  | .val q => docRefs q.schema
+def brRefs3 {V : Type} : BRef3 V → List (RK × String)
+  | .ref _ _ => []
+  | .val q => (q.schema.map docRefs).getD []
+def rrRefs3 {V : Type} : RRef3 V → List (RK × String)
+  | .ref _ _ => []
+  | .val q => (q.schema.map docRefs).getD [] ++ q.headers.flatMap (fun nh => docRefs nh.2.schema)
+def opRefs3 {V : Type} (o : Op3 V) : List (RK × String) :=
+  o.params.flatMap prRefs3 ++ (o.body.map brRefs3).getD [] ++ o.responses.flatMap (fun kr => rrRefs3 kr.2)
+def pathRefs3 {V : Type} (p : Path3 V) : List (RK × String) := p.params.flatMap prRefs3 ++ p.ops.flatMap opRefs3
 
 /-- all schema-position references of a v3 document -/
 def schemaRefs3 {V : Type} (d : Doc3 V) : List (RK × String) :=
-  let pr : PRef3 V → List (RK × String) := fun p => match p with | .ref _ _ => [] | .val q => docRefs q.schema
-  let br : BRef3 V → List (RK × String) := fun b => match b with | .ref _ _ => [] | .val q => (q.schema.map docRefs).getD []
-  let rr : RRef3 V → List (RK × String) := fun r => match r with
-    | .ref _ _ => []
-    | .val q => (q.schema.map docRefs).getD [] ++ q.headers.flatMap (fun (_, h) => docRefs h.schema)
-  d.cparams.flatMap (fun (_, p) => pr p) ++ d.cbodies.flatMap (fun (_, b) => br b) ++
-  d.cschemas.flatMap (fun (_, c) => docRefs c.schema) ++ d.cresponses.flatMap (fun (_, r) => rr r) ++
-  d.paths.flatMap (fun p => p.params.flatMap pr ++ p.ops.flatMap (fun o =>
-    o.params.flatMap pr ++ (o.body.map br).getD [] ++ o.responses.flatMap (fun (_, r) => rr r)))
+  d.cparams.flatMap (fun kp => prRefs3 kp.2) ++ d.cbodies.flatMap (fun kb => brRefs3 kb.2) ++
+  d.cschemas.flatMap (fun kc => docRefs kc.2.schema) ++ d.cresponses.flatMap (fun kr => rrRefs3 kr.2) ++
+  d.paths.flatMap pathRefs3
 
 /-- ToV3: `ResolveRefsIn` fails on a reference the conversion left in v2 form -/
 def toV3 {V : Type} (d : Doc2 V) : Res (Doc3 V) :=
@@ -1046,7 +1075,7 @@ def fromV3Op {V : Type} (bin : List String) (op : Op3 V) : Option (Op2 V) :=
            consumes := match op.body with | some (.val b) => sortStrs b.mimes | _ => [],
            produces := [],
            params := ps ++ (match op.body with | none => [] | some b => fromV3Body bin false "body" b),
-           responses := rs }
+           responses := rs, info := conv fromV3OpTable op.info, security := op.security }
   | _, _ => none
 
 def fromV3Path {V : Type} (bin : List String) (p : Path3 V) : Option (Path2 V) :=
@@ -1057,6 +1086,12 @@ def fromV3Path {V : Type} (bin : List String) (p : Path3 V) : Option (Path2 V) :
 def isBinaryFmt {V : Type} : Sch V → Bool
   | .ref _ _ => false
   | .node h _ => h.fmt == some "binary"
+
+/-- the key of `doc2.Parameters` under which FromV3 stores what comes back from a component request body -/
+def backKey {V : Type} (k : String) (p : PRef2 V) : String × PRef2 V :=
+  match p with
+  | .val q => if q.loc = "formData" then (q.name, p) else (k, p)
+  | _ => (k, p)
 
 /-- FromV3 (`none` = panic) -/
 def fromV3 {V : Type} (d : Doc3 V) : Option (Doc2 V) :=
@@ -1070,14 +1105,11 @@ def fromV3 {V : Type} (d : Doc3 V) : Option (Doc2 V) :=
       params := dedupLast (
         (d.cschemas.filter (fun (_, c) => isBinary c.schema)).map (fun (k, c) => (k, fromV3FileParam k c)) ++
         cps ++
-        d.cbodies.flatMap (fun (k, b) => (fromV3Body bin true k b).map (fun p =>
-          match p with
-          | .val q => if q.loc = "formData" then (q.name, p) else (k, p)
-          | _ => (k, p)))),
+        d.cbodies.flatMap (fun kb => (fromV3Body bin true kb.1 kb.2).map (backKey kb.1))),
       responses := crs,
       defs := (d.cschemas.filter (fun (_, c) => !isBinary c.schema)).filterMap (fun (k, c) => (fromV3SO bin c.schema).map (fun s => (k, s))),
       secs := d.secs.filterMap (fun (k, s) => match fromV3Sec s with | .ok t => some (k, t) | _ => none),
-      paths := paths }
+      paths := paths, security := d.security }
   | _, _, _ => none
 
 /-- findNameForRequestBody: the name of a parameter as FromV3Operation sees it (references are resolved) -/
@@ -1088,7 +1120,7 @@ def paramName3 {V : Type} (cparams : List (String × PRef3 V)) : PRef3 V → Str
 /-- FromV3Operation fails with "could not find a name for request body": the operation has a request body
     and parameters named `body` and `requestBody` -/
 def opNameClash {V : Type} (cparams : List (String × PRef3 V)) (o : Op3 V) : Bool :=
-  o.body.isSome && ["body", "requestBody"].all (fun n => o.params.any (fun p => paramName3 cparams p == n))
+  o.body.isSome && bodyParamNames.all (fun n => o.params.any (fun p => paramName3 cparams p == n))
 
 /-- outcome of FromV3 -/
 inductive BackRes (V : Type) where
@@ -1108,6 +1140,8 @@ structure OpA (V : Type) where
   opId : String
   inputs : List (InputA V)
   responses : List (String × RespRA V)
+  info : Rec V                      -- summary, description, deprecated, tags
+  security : Option V               -- the operation's own security requirements
 
 structure Api (V : Type) where
   ops : List (OpA V)
@@ -1117,11 +1151,13 @@ structure Api (V : Type) where
   defs : List (String × ASch V)
   servers : List Server
   security : List (String × SecA)
+  securityReq : Option V            -- document-level security requirements
 
 /-- what a v2 operation says -/
 def opA2 {V : Type} (path : String) (o : Op2 V) : OpA V :=
   { path := path, method := o.method, opId := o.opId, inputs := o.params.map inputA2,
-    responses := o.responses.map (fun kr => (kr.1, respA2 kr.2)) }
+    responses := o.responses.map (fun kr => (kr.1, respA2 kr.2)),
+    info := normRec opMetaFields o.info, security := o.security }
 
 def api2 {V : Type} (d : Doc2 V) : Api V :=
   { ops := d.paths.flatMap (fun p => p.ops.map (opA2 p.path)),
@@ -1130,17 +1166,22 @@ def api2 {V : Type} (d : Doc2 V) : Api V :=
     sharedResponses := d.responses.map (fun (k, r) => (k, respA2 r)),
     defs := d.defs.map (fun (k, s) => (k, abs2S s)),
     servers := serversA2 d.loc,
-    security := d.secs.map (fun (k, s) => (k, secA2 s)) }
+    security := d.secs.map (fun (k, s) => (k, secA2 s)),
+    securityReq := d.security }
 
 /-- a shared form parameter encoded as a component schema -/
 def sharedForm3 {V : Type} (name : String) (c : CSchema V) : InputA V :=
   .form name (propRequired name c.schema) (abs3S (clearReq c.schema))
 
+/-- what a v3 operation says -/
+def opA3 {V : Type} (path : String) (o : Op3 V) : OpA V :=
+  { path := path, method := o.method, opId := o.opId,
+    inputs := o.params.map paramA3 ++ (match o.body with | none => [] | some b => bodyA3 b),
+    responses := o.responses.map (fun kr => (kr.1, respA3 kr.2)),
+    info := normRec opMetaFields o.info, security := o.security }
+
 def api3 {V : Type} (d : Doc3 V) : Api V :=
-  { ops := d.paths.flatMap (fun p => p.ops.map (fun o =>
-      { path := p.path, method := o.method, opId := o.opId,
-        inputs := o.params.map paramA3 ++ (match o.body with | none => [] | some b => bodyA3 b),
-        responses := o.responses.map (fun (k, r) => (k, respA3 r)) })),
+  { ops := d.paths.flatMap (fun p => p.ops.map (opA3 p.path)),
     pathParams := (d.paths.filter (fun p => !p.params.isEmpty)).map (fun p => (p.path, p.params.map paramA3)),
     shared := d.cparams.map (fun (k, p) => (k, paramA3 p)) ++
               d.cbodies.flatMap (fun (k, b) => (bodyA3 b).map (fun i => (k, i))) ++
@@ -1148,7 +1189,8 @@ def api3 {V : Type} (d : Doc3 V) : Api V :=
     sharedResponses := d.cresponses.map (fun (k, r) => (k, respA3 r)),
     defs := d.cschemas.filterMap (fun (k, c) => match c.formName with | none => some (k, abs3S c.schema) | some _ => none),
     servers := d.servers,
-    security := d.secs.map (fun (k, s) => (k, secA3 s)) }
+    security := d.secs.map (fun (k, s) => (k, secA3 s)),
+    securityReq := d.security }
 
 /-! ## §7 fragment and exclusion predicates used by the theorems -/
 
@@ -1156,7 +1198,7 @@ def api3 {V : Type} (d : Doc3 V) : Api V :=
 def itemsOK3 {V : Type} (o : Option (Sch V)) : Bool := o.all (fun s => !addlImpure s && v2Refs s)
 
 /-- … and of `roundtripS_partial` -/
-def itemsOKBack {V : Type} (o : Option (Sch V)) : Bool := o.all (fun s => !hasDisc s && !addlRef s && v2Refs s)
+def itemsOKBack {V : Type} (o : Option (Sch V)) : Bool := o.all v2Refs
 
 /-- exclusion (findings #21c and F-C17-4): the way back loses `required` and `format` of an inline form field -/
 def formLossy {V : Type} (p : Param2 V) : Bool :=
@@ -1168,7 +1210,7 @@ def headerOKBack {V : Type} (h : String × Param2 V) : Bool := itemsOKBack h.2.i
 
 def schemaOK3 {V : Type} (o : Option (Sch V)) : Bool := o.all (fun s => !addlImpure s && v2Refs s)
 
-def schemaOKBack {V : Type} (o : Option (Sch V)) : Bool := o.all (fun s => !hasDisc s && !addlRef s && v2Refs s)
+def schemaOKBack {V : Type} (o : Option (Sch V)) : Bool := o.all v2Refs
 
 /-- exclusion (finding #26): the response has a schema and `produces` lacks application/json -/
 def respLossy {V : Type} (produces : List String) : RRef2 V → Bool
@@ -1211,7 +1253,8 @@ def toV3PS {V : Type} : PRef2 V → PRef3 V
 /-- the v3 operation ToV3Operation builds in the simple fragment -/
 def toV3OpS {V : Type} (o : Op2 V) : Op3 V :=
   { method := o.method, opId := o.opId, params := o.params.map toV3PS, body := none,
-    responses := o.responses.map (fun kr => (kr.1, toV3Resp o.produces kr.2)) }
+    responses := o.responses.map (fun kr => (kr.1, toV3Resp o.produces kr.2)),
+    info := conv toV3OpTable o.info, security := o.security }
 
 def toV3PathS {V : Type} (p : Path2 V) : Path3 V :=
   { path := p.path, params := p.params.map toV3PS, ops := p.ops.map toV3OpS }
@@ -1273,7 +1316,7 @@ def opSimpleBack {V : Type} (o : Op2 V) : Bool :=
 def pathSimpleBack {V : Type} (p : Path2 V) : Bool := p.params.all paramSimpleBack && p.ops.all opSimpleBack
 
 def defSimpleBack {V : Type} (s : Sch V) : Bool :=
-  noBinary2 s && !hasDisc s && !addlRef s && v2Refs s && !addlImpure s &&
+  noBinary2 s && v2Refs s && !addlImpure s &&
   (match s with | .ref _ _ => true | .node h _ => h.fmt != some "binary")
 
 def docSimpleBack {V : Type} (d : Doc2 V) : Bool :=
@@ -1281,5 +1324,158 @@ def docSimpleBack {V : Type} (d : Doc2 V) : Bool :=
   nodupKeys d.defs && d.defs.all (fun ks => defSimpleBack ks.2) &&
   d.secs.all (fun ks => secInFragment ks.2) &&
   (d.loc.host != "" && d.loc.schemes.all (fun x => x == "http" || x == "https"))
+
+/-! ## §8 the fragment with body parameters (inline and shared) -/
+
+def isBodyVal {V : Type} : PRef2 V → Bool
+  | .ref _ _ => false
+  | .val p => p.loc == "body"
+
+/-- the keys of the shared parameters that are body parameters -/
+def bodyKeys {V : Type} : List (String × PRef2 V) → List String
+  | [] => []
+  | (k, p) :: r => if isBodyVal p then k :: bodyKeys r else bodyKeys r
+
+/-- an inline body parameter of the fragment: its schema is inside the fragment of `toV3S_preserves_partial`, and the
+    media types it is consumed under are not form media types (a body under a form media type is read as form
+    fields by `bodyA3`) -/
+def bodyOK3 {V : Type} (cs : List String) : PRef2 V → Bool
+  | .ref _ _ => false
+  | .val p => p.loc == "body" && schemaOK3 p.schema && (p.schema.isNone || !cs.any isFormMime)
+
+/-- a request input of an operation of the fragment: a query / header / path parameter (inline or by reference)
+    or a body parameter (inline, or a reference to a shared body parameter — `paramSimple` admits every v2 reference) -/
+def inputOK3 {V : Type} (cs : List String) (q : PRef2 V) : Bool := paramSimple q || bodyOK3 cs q
+
+/-- does this parameter end up as the request body? (`bks` = keys of the shared body parameters) -/
+def isBodyIn {V : Type} (bks : List String) : PRef2 V → Bool
+  | .ref k n => k == RK.par2 && bks.contains n
+  | .val p => p.loc == "body"
+
+def effConsumes {V : Type} (dc : List String) (o : Op2 V) : List String := if o.consumes.isEmpty then dc else o.consumes
+
+def opBodyOK {V : Type} (bks dc : List String) (o : Op2 V) : Bool :=
+  o.params.all (inputOK3 (effConsumes dc o)) && decide ((o.params.filter (isBodyIn bks)).length ≤ 1) &&
+  o.responses.all (fun kr => respOK3 kr.2)
+
+/-- path-level parameters: no reference to a shared body parameter (ToV3PathItem fails on it) -/
+def pathParamOK {V : Type} (bks : List String) (q : PRef2 V) : Bool := paramSimple q && !isBodyIn bks q
+
+def pathBodyOK {V : Type} (bks dc : List String) (p : Path2 V) : Bool :=
+  p.params.all (pathParamOK bks) && p.ops.all (opBodyOK bks dc)
+
+/-- a shared parameter of the fragment: query / header / path or body -/
+def sharedOK3 {V : Type} (dc : List String) (q : PRef2 V) : Bool := sharedSimple q || bodyOK3 dc q
+
+/-- documents whose operations take query / header / path parameters and at most one body parameter, inline or by
+    reference to a shared parameter (shared parameters: query / header / path / body) -/
+def docBody {V : Type} (d : Doc2 V) : Bool :=
+  d.params.all (fun kp => sharedOK3 d.consumes kp.2) && d.paths.all (pathBodyOK (bodyKeys d.params) d.consumes) &&
+  d.responses.all (fun kr => respOK3 kr.2) &&
+  nodupKeys d.defs && d.defs.all (fun ks => !addlImpure ks.2 && v2Refs ks.2) &&
+  d.secs.all (fun ks => secInFragment ks.2) && locOK d.loc
+
+/-- the v3 request body ToV3Parameter builds from an inline body parameter -/
+def toV3BodyS {V : Type} (cs : List String) (p : Param2 V) : BRef3 V :=
+  .val { required := p.required,
+         mimes := match p.schema with
+           | none => []
+           | some _ => if cs.isEmpty then ["*/*"] else cs,
+         schema := p.schema.map toV3S }
+
+/-- two lists related position by position -/
+def rel2 {α β : Type} (R : α → β → Prop) : List α → List β → Prop
+  | [], [] => True
+  | a :: as, b :: bs => R a b ∧ rel2 R as bs
+  | _, _ => False
+
+/-- the same API up to the order of the request inputs of an operation -/
+def OpA.sim {V : Type} (a b : OpA V) : Prop :=
+  a.path = b.path ∧ a.method = b.method ∧ a.opId = b.opId ∧ a.inputs.Perm b.inputs ∧ a.responses = b.responses ∧
+  a.info = b.info ∧ a.security = b.security
+
+/-- the same API up to the order of the request inputs of each operation and of the shared parameters -/
+def Api.sim {V : Type} (a b : Api V) : Prop :=
+  rel2 OpA.sim a.ops b.ops ∧ a.pathParams = b.pathParams ∧ a.shared.Perm b.shared ∧
+  a.sharedResponses = b.sharedResponses ∧ a.defs = b.defs ∧ a.servers = b.servers ∧ a.security = b.security ∧
+  a.securityReq = b.securityReq
+
+/-- the round-trip fragment with bodies, component by component (outside every exclusion class) -/
+def bodyOKBack {V : Type} (cs : List String) : PRef2 V → Bool
+  | .ref _ _ => false
+  | .val p => p.loc == "body" && !cs.any isFormMime &&
+      (match p.schema with | none => false | some s => v2Refs s && noBinary2 s && !addlImpure s)
+
+def inputOKBack {V : Type} (cs : List String) (q : PRef2 V) : Bool := paramSimpleBack q || bodyOKBack cs q
+
+def opBodyBack {V : Type} (bks dc : List String) (o : Op2 V) : Bool :=
+  o.params.all (inputOKBack (effConsumes dc o)) && decide ((o.params.filter (isBodyIn bks)).length ≤ 1) &&
+  o.responses.all (fun kr => respSimpleBack o.produces kr.2)
+
+def pathParamBack {V : Type} (bks : List String) (q : PRef2 V) : Bool := paramSimpleBack q && !isBodyIn bks q
+
+def pathBodyBack {V : Type} (bks dc : List String) (p : Path2 V) : Bool :=
+  p.params.all (pathParamBack bks) && p.ops.all (opBodyBack bks dc)
+
+/-- a shared body parameter comes back from one FromV3SchemaRef pass per media type over the same schema object
+    (F-C17-11): the fragment keeps to at most one media type -/
+def sharedOKBack {V : Type} (dc : List String) (q : PRef2 V) : Bool :=
+  sharedSimpleBack q || (bodyOKBack dc q && decide (dc.length ≤ 1))
+
+def docBodyBack {V : Type} (d : Doc2 V) : Bool :=
+  docBody d && d.params.all (fun kp => sharedOKBack d.consumes kp.2) && nodupKeys d.params &&
+  d.paths.all (pathBodyBack (bodyKeys d.params) d.consumes) &&
+  d.responses.all (fun kr => respSimpleBack d.produces kr.2) &&
+  d.defs.all (fun ks => defSimpleBack ks.2) &&
+  (d.loc.host != "" && d.loc.schemes.all (fun x => x == "http" || x == "https"))
+
+/-- what relates a converted path item to its source -/
+def PathRel3 {V : Type} (p3 : Path3 V) (p : Path2 V) : Prop :=
+  p3.path = p.path ∧ p3.params.map paramA3 = p.params.map inputA2 ∧
+  rel2 OpA.sim (p3.ops.map (opA3 p3.path)) (p.ops.map (opA2 p.path))
+
+/-- what relates a path item that came back to its source -/
+def PathRelBack {V : Type} (p2 p : Path2 V) : Prop :=
+  p2.path = p.path ∧ p2.params.map inputA2 = p.params.map inputA2 ∧
+  rel2 OpA.sim (p2.ops.map (opA2 p2.path)) (p.ops.map (opA2 p.path))
+
+/-! ## §9 the fragment with form parameters (ToV3) -/
+
+/-- an inline form parameter of the fragment -/
+def formOK3 {V : Type} : PRef2 V → Bool
+  | .ref _ _ => false
+  | .val p => p.loc == "formData" && itemsOK3 p.items
+
+/-- a request input: query / header / path parameter, body parameter, or inline form parameter -/
+def inputOKF {V : Type} (cs : List String) (q : PRef2 V) : Bool := inputOK3 cs q || formOK3 q
+
+/-- the inline form parameters of a parameter list, in order -/
+def formVals {V : Type} : List (PRef2 V) → List (Param2 V)
+  | [] => []
+  | .val p :: r => if p.loc = "formData" then p :: formVals r else formVals r
+  | .ref _ _ :: r => formVals r
+
+/-- an operation takes either at most one body parameter, or form parameters with distinct names under a form
+    media type (never both: ToV3 rejects that) -/
+def opInputsOK {V : Type} (bks dc : List String) (o : Op2 V) : Bool :=
+  o.params.all (inputOKF (effConsumes dc o)) &&
+  (((formVals o.params).isEmpty && decide ((o.params.filter (isBodyIn bks)).length ≤ 1)) ||
+   ((o.params.filter (isBodyIn bks)).isEmpty &&
+    nodupKeys ((formVals o.params).map (fun p => (p.name, toV3FormProp p))) && (effConsumes dc o).any isFormMime)) &&
+  o.responses.all (fun kr => respOK3 kr.2)
+
+def pathInputsOK {V : Type} (bks dc : List String) (p : Path2 V) : Bool :=
+  p.params.all (pathParamOK bks) && p.ops.all (opInputsOK bks dc)
+
+/-- documents whose operations take query / header / path parameters and a body parameter or form parameters;
+    shared parameters: query / header / path / body -/
+def docInputs {V : Type} (d : Doc2 V) : Bool :=
+  d.params.all (fun kp => sharedOK3 d.consumes kp.2) && d.paths.all (pathInputsOK (bodyKeys d.params) d.consumes) &&
+  d.responses.all (fun kr => respOK3 kr.2) &&
+  nodupKeys d.defs && d.defs.all (fun ks => !addlImpure ks.2 && v2Refs ks.2) &&
+  d.secs.all (fun ks => secInFragment ks.2) && locOK d.loc
+
+/-- no reference of the list is in OpenAPI 2 form (what `toV3` requires of `schemaRefs3`) -/
+def noV2 (l : List (RK × String)) : Prop := ∀ kn ∈ l, kn.1.isV2 = false
 
 end KinModel.Conv
